@@ -26,6 +26,7 @@ func failf(sig, format string, a ...any) *fail {
 // result of one executed sequence
 type result struct {
 	f           *fail
+	fatal       bool   // the run was aborted (only set by runNumerical, which otherwise continues after a failed accessor)
 	state       string // canonical state through the public accessors after the last operation
 	orderKey    string // the part of the state that must not depend on sample order ("" = not claimed)
 	accepted    int    // samples that were not parse errors
@@ -68,9 +69,7 @@ func panicClass(p any) string {
 func guard(family string, where *string, f func() *fail) (out *fail) {
 	defer func() {
 		if p := recover(); p != nil {
-			buf := make([]byte, 4096)
-			buf = buf[:runtime.Stack(buf, false)]
-			out = failf("C07/"+family+"/panic/"+*where+"/"+panicClass(p), "panic in %s: %v\n%s", *where, p, buf)
+			out = failf("C07/"+family+"/panic/"+*where+"/"+panicClass(p), "panic in %s: %v\n%s", *where, p, rareFrames())
 		}
 	}()
 	return f()
@@ -120,3 +119,17 @@ func nextPermutation(p []int) bool {
 func q(s string) string { return fmt.Sprintf("%q", s) }
 
 func qs(ss []string) string { return fmt.Sprintf("%q", ss) }
+
+// rareFrames returns the frames of the current stack that are inside rare.
+func rareFrames() string {
+	buf := make([]byte, 16384)
+	buf = buf[:runtime.Stack(buf, false)]
+	lines := strings.Split(string(buf), "\n")
+	var out []string
+	for i := 0; i+1 < len(lines); i++ {
+		if strings.HasPrefix(lines[i], "rare/") {
+			out = append(out, "  at "+lines[i]+" "+strings.TrimSpace(lines[i+1]))
+		}
+	}
+	return strings.Join(out, "\n")
+}
